@@ -545,6 +545,156 @@ def r05_3(prog, rep, rid='R05.3'):
 
 
 # ------------------------------------------------------------------------------
+# R05.18  no error of work_cb ever ends the worker thread
+#
+# R05.3 asks that the handler around `self.work_cb()` *can* continue the
+# loop.  The property needs more: on *every* normal path the handler returns
+# to the loop head - a path on which it leaves the loop (an error budget, a
+# "too many errors" counter, a conditional re-raise / return / break) ends
+# the worker thread for the history that makes the path's guards true, and
+# every task which reaches the component later is never looked at.  The only
+# way out which is not an effect of the error is the loop's own termination
+# test (the same expression, the same polarity).
+#
+_NOT_ERRORS = ('KeyboardInterrupt', 'SystemExit', 'GeneratorExit')
+
+
+def _norm_test(g, node):
+    """(text, flipped) of a cfg test: leading `not`s stripped"""
+    a = _resolve_names(g, node.ast, node.id)
+    flip = False
+    while isinstance(a, ast.UnaryOp) and isinstance(a.op, ast.Not):
+        a = a.operand
+        flip = not flip
+    return unparse(a), flip
+
+
+def _loop_exit_tests(g, L):
+    """{(text, label)}: the outcomes of the loop's own condition (the tests
+    reached from the head before any statement) which leave the loop"""
+    body = g.loop_body[L.id] | {L.id}
+    out = set()
+    seen = set()
+    todo = [e.dst for e in g.succ[L.id] if e.label != 'exc']
+    while todo:
+        nid = todo.pop()
+        if nid in seen or nid not in body:
+            continue
+        seen.add(nid)
+        n = g.nodes[nid]
+        if n.kind == 'join':
+            todo += [e.dst for e in g.succ[nid] if e.label != 'exc']
+        elif n.kind == 'test':
+            text, flip = _norm_test(g, n)
+            for e in g.succ[nid]:
+                if e.label not in ('T', 'F'):
+                    continue
+                if e.dst in body:
+                    if not e.back:
+                        todo.append(e.dst)
+                else:
+                    lab = e.label if not flip else \
+                        ('F' if e.label == 'T' else 'T')
+                    out.add((text, lab))
+    return out
+
+
+def r05_18(prog, rep, rid='R05.18'):
+    rep.rule(rid, 'the handler of work_cb errors in _work_loop returns to the '
+             'loop head on every path: no count or condition lets an error '
+             'end the worker thread', minimum=1)
+    comp = prog.cls(*COMP)
+    f = prog.find_method(comp, '_work_loop')
+    rep.saw(f)
+    g = cfg_of(f)
+    calls = [n for n in g.stmt_nodes() if n.kind in ('stmt', 'test') and any(
+        call_name(c) == 'self.work_cb' for c in calls_in(n.ast))]
+    if not calls:
+        raise AnalysisError('UNRECOGNISED-IDIOM %s: work_cb call' % f.where)
+    normal = ('next', 'T', 'F', 'iter', 'done')
+    for w in calls:
+        hs = []
+        for e in g.succ[w.id]:
+            if e.label == 'exc':
+                t = g.nodes[e.dst]
+                hs = [g.nodes[x.dst] for x in g.succ[t.id]] \
+                    if t.kind == 'dispatch' else [t]
+        hs = [h for h in hs if h.kind == 'handler' and not (
+            h.ast.type is not None and
+            unparse(h.ast.type).split('.')[-1] in _NOT_ERRORS)]
+        if not w.loops or not hs:
+            # no loop / no handler: R05.3 reports it
+            rep.check(False, rid, f, '', construct='work_loop:returns',
+                      message='BaseComponent._work_loop does not catch the '
+                      'exceptions of work_cb inside its loop: the worker '
+                      'thread ends on the first error', loc=f.loc(w.ast),
+                      history='an assertion in work_cb (thing in a state '
+                      'without worker) ends the component thread; every '
+                      'later task hangs')
+            continue
+        L = g.nodes[w.loops[-1]]
+        body = g.loop_body[L.id] | {L.id}
+        exits = _loop_exit_tests(g, L)
+        for h in hs:
+            # walk the handler; stop at the loop head; do not follow an
+            # outcome of the loop's own termination test
+            leaves = []
+            seen = {}
+            todo = [(h.id, ())]
+            while todo:
+                nid, path = todo.pop()
+                if nid in seen:
+                    continue
+                seen[nid] = path
+                n = g.nodes[nid]
+                if nid not in body:
+                    leaves.append((n, path))
+                    continue
+                if nid == L.id:
+                    continue
+                for e in g.succ[nid]:
+                    if e.label not in normal:
+                        # an explicit raise inside the handler leaves, too
+                        if n.kind == 'stmt' and isinstance(n.ast, ast.Raise) \
+                                and g.nodes[e.dst].id not in body:
+                            leaves.append((n, path))
+                        continue
+                    p = path
+                    if n.kind == 'test' and e.label in ('T', 'F'):
+                        text, flip = _norm_test(g, n)
+                        lab = e.label if not flip else \
+                            ('F' if e.label == 'T' else 'T')
+                        if (text, lab) in exits:
+                            continue
+                        p = path + ('%s is %s' % (short(n.ast, 40), {
+                            'T': 'true', 'F': 'false'}[e.label]),)
+                    todo.append((e.dst, p))
+            inside = h.id in body
+            ok = inside and not leaves
+            why = ''
+            if not inside:
+                why = 'the handler is outside of the loop'
+            elif leaves:
+                n, path = leaves[0]
+                why = 'the handler leaves the loop%s' % (
+                    ' when ' + ' and '.join('`%s`' % x for x in path)
+                    if path else ' unconditionally')
+            rep.check(ok, rid, f, 'after an error of work_cb the handler '
+                      'returns to the loop head on every path',
+                      construct='work_loop:returns',
+                      message='BaseComponent._work_loop: %s: an error raised '
+                      'by work_cb (e.g. the assertion for a thing in a state '
+                      'the component has no worker for) can end the worker '
+                      'thread; _finalize() runs and every task which reaches '
+                      'the component later is never looked at and never '
+                      'becomes final' % why, loc=f.loc(h.ast),
+                      history='work_cb raises often enough to make the '
+                      'condition true (e.g. stray things in a state without '
+                      'worker, arbitrarily far apart), then further tasks '
+                      'arrive: they stay in their *_PENDING state forever')
+
+
+# ------------------------------------------------------------------------------
 # R05.4  per-task isolation in the stagers
 #
 def per_task_handlers(prog, f):
@@ -2096,6 +2246,21 @@ def _awaited(atom, lab):
     self.<attr>[k]<tail> is missing / falsy"""
     if isinstance(atom, ast.UnaryOp) and isinstance(atom.op, ast.Not):
         return _awaited(atom.operand, 'F' if lab == 'T' else 'T')
+    # `e[<tail>] if e else None` / `e and e[<tail>]` (e the entry
+    # self.<attr>[k]): falsy when the entry or its <tail> is missing - the
+    # most specific test (longest constant key path) is the awaited one
+    parts = None
+    if isinstance(atom, ast.IfExp) and _falsy_const_expr(atom.orelse):
+        parts = [atom.test, atom.body]
+    elif isinstance(atom, ast.BoolOp) and isinstance(atom.op, ast.And):
+        parts = list(atom.values)
+    if parts is not None:
+        if lab != 'F':
+            return None
+        aws = [_awaited(p, 'F') for p in parts]
+        if any(a is None for a in aws) or len({a[0] for a in aws}) != 1:
+            return None
+        return max(aws, key=lambda a: len(a[1]))
     ch = _self_chain(atom)
     if ch and ch[1] and lab == 'F':
         tail = []
@@ -2111,6 +2276,54 @@ def _awaited(atom, lab):
                 (isinstance(atom.ops[0], ast.NotIn) and lab == 'T')):
             return ch[0], ()
     return None
+
+
+def _awaited_local(g, atom, tid, lab):
+    """_awaited for a test on a local which several plain assignments reach
+    (`v = e['x'] if e else None`, or the same as if / else): the branch is
+    taken when the local is falsy - every definition is either a falsy
+    constant made under a failed test on self.<attr>[k]..., or a read of
+    self.<attr>[k]<tail>; the longest <tail> is the awaited one.
+    -> ((attr, tail), shown atom) or (None, atom)"""
+    from ..flow import reaching_defs
+    a = atom
+    while isinstance(a, ast.UnaryOp) and isinstance(a.op, ast.Not):
+        a = a.operand
+        lab = 'F' if lab == 'T' else 'T'
+    if not isinstance(a, ast.Name) or lab != 'F':
+        return None, atom
+    defs = reaching_defs(g, a.id, tid)
+    if len(defs) < 2:
+        return None, atom
+    here = set(guards(g, tid))
+    aws = []
+    shown = atom
+    for d, v in defs:
+        if v is None or not (d.kind == 'stmt' and
+                             isinstance(d.ast, ast.Assign) and
+                             len(d.ast.targets) == 1):
+            return None, atom
+        if _falsy_const_expr(v):
+            # why the local got the falsy constant
+            extra = [(t, l) for t, l in guards(g, d.id) if (t, l) not in here]
+            if not extra:
+                return None, atom
+            for t, l in extra:
+                aw = _awaited(_resolve_names(g, g.nodes[t].ast, t), l)
+                if aw is None:
+                    return None, atom
+                aws.append(aw)
+        else:
+            rv = _resolve_names(g, v, d.id)
+            aw = _awaited(rv, 'F')
+            if aw is None:
+                return None, atom
+            aws.append(aw)
+            if len(aw[1]) >= max(len(x[1]) for x in aws):
+                shown = rv
+    if not aws or len({x[0] for x in aws}) != 1:
+        return None, atom
+    return max(aws, key=lambda x: len(x[1])), shown
 
 
 def parking_sites(prog):
@@ -2167,6 +2380,9 @@ def parking_sites(prog):
                         continue
                     atom = _resolve_names(g, g.nodes[tid].ast, tid)
                     aw = _awaited(atom, 'T' if lab == 'F' else 'F')
+                    if aw is None:
+                        aw, atom = _awaited_local(g, atom, tid,
+                                                  'T' if lab == 'F' else 'F')
                     if aw is None:
                         continue
                     old = found.get(aw[0])
@@ -4049,6 +4265,7 @@ def run(prog, rep, tier):
     rep.attempt(r05_15, prog, rep)
     rep.attempt(r05_16, prog, rep)
     rep.attempt(r05_17, prog, rep)
+    rep.attempt(r05_18, prog, rep)
     # exactly one final state when process exit and cancel coincide
     from .c07 import r07_2
     rep.attempt(r07_2, prog, rep, rid='R07.2')
